@@ -970,6 +970,147 @@ def phase_pack(ctx, fnd, deltas, states):
     ctx.cov["pack_path"] = {"cases": len(cases), "empty_payload_guard_hits": guard}
 
 
+# =========================================================================== phase W: the encoder inside the pack writer
+WRITER_SITE = "dulwich/pack.py:deltas_from_sorted_objects"
+
+
+def blob_families(ctx, n):
+    """Families of 3-5 related blobs: versions of one ancestor that share prefixes / middles of different
+    length, so that several candidate bases in a window produce deltas of different size."""
+    rng = ctx.rng
+    fams = []
+    for i in range(n):
+        anc = rng.randbytes(rng.randint(120, 260)) if i % 2 else D.blob([["text", 500 + i, rng.randint(5, 9)]])[:260]
+        fam = {anc}
+        for _ in range(rng.randint(2, 4)):
+            k = rng.randrange(4)
+            cut = rng.randint(len(anc) // 4, len(anc))
+            if k == 0:
+                v = anc[:cut] + rng.randbytes(rng.randint(1, 60))                   # shares a prefix
+            elif k == 1:
+                v = rng.randbytes(rng.randint(1, 30)) + anc[len(anc) - cut:]         # shares a suffix
+            elif k == 2:
+                a = rng.randint(0, len(anc) // 2)
+                v = anc[:a] + rng.randbytes(rng.randint(1, 20)) + anc[a + rng.randint(0, 40):]   # edit in the middle
+            else:
+                v = anc[:cut] + b"tail-%d" % rng.randrange(100)                      # nearly a prefix
+            fam.add(v)
+        if len(fam) >= 3:
+            fams.append(sorted(fam, key=lambda b: (-len(b), b)))
+    # the documented circumstance: Z close to X, less close to Y, sizes X > Y > Z
+    r1, r2 = rng.randbytes(4000), rng.randbytes(2000)
+    fams.append([r1, r1[:1500] + r2, r1[:3000] + b"tail-z"])
+    return fams
+
+
+def phase_deltify(ctx, fnd):
+    import itertools
+    fams = blob_families(ctx, ctx.pick(24, 300))
+    cases, meta = [], {}
+    for fi, fam in enumerate(fams):
+        perms = list(itertools.permutations(range(len(fam))))
+        ctx.rng.shuffle(perms)
+        perms = [tuple(range(len(fam)))] + perms[:ctx.pick(5, 11)]
+        for pi, perm in enumerate(perms):
+            order = [fam[j] for j in perm]
+            for via, w in (("sorted", None), ("sorted", 2)) + ((("deltify", None), ("write", None)) if pi < 2 else ()):
+                cid = f"w{len(cases)}"
+                cases.append({"id": cid, "blobs": [[["hex", b.hex()]] for b in order], "window": w, "via": via})
+                meta[cid] = (order, via, w)
+    obs = run_case_jobs(ctx, "deltify", cases, 3)
+    # recorded (base, delta, object) triples -> one trace per distinct triple and mode
+    triples = {}
+
+    def bad(m, clause, order, via, w, extra):
+        fnd.add(f"{WRITER_SITE}[{m}]|{clause}|via={via}", f"{m}: pack writer with deltify ({via}): {clause}",
+                {"kind": "deltify", "mode": m, "blobs": [[["hex", b.hex()]] for b in order], "window": w, "via": via, **extra},
+                sum(map(len, order)))
+
+    for m in MODES:
+        for cid, (order, via, w) in meta.items():
+            o = obs[m][cid]
+            ctx.count()
+            by_sha = {D.git_blob_sha(b).hex(): b for b in order}
+            if o["k"] in ("exception", "panic"):
+                bad(m, clause_of(o, None), order, via, w, {"observed": o})
+                continue
+            if o["k"] == "pack":
+                pack = bytes.fromhex(o["pack"])
+                at = {off: sha for sha, off in o["offsets"].items()}
+                entries = []
+                try:
+                    off = 12
+                    for _ in range(int.from_bytes(pack[8:12], "big")):
+                        start = off
+                        t, size, base, payload, off = D.read_pack_entry(pack, off)
+                        bsha = None if base is None else (at.get(base[1]) if base[0] == "ofs" else base[1].hex())
+                        entries.append([at.get(start), bsha, payload.hex(), len(payload)] if base is not None or t == 3
+                                       else [at.get(start), "?", "", 0])
+                except Exception as e:  # noqa: BLE001 - an unreadable pack is an observation about the writer
+                    bad(m, "unreadable-pack", order, via, w, {"error": repr(e)[:200]})
+                    continue
+            else:
+                entries = o["entries"]
+            if sorted(e[0] or "" for e in entries) != sorted(by_sha):
+                bad(m, "objects-missing-or-renamed", order, via, w, {"entries": [e[:2] for e in entries]})
+                continue
+            for sha, bsha, payload, dlen in entries:
+                payload = bytes.fromhex(payload)
+                tgt = by_sha[sha]
+                if bsha is None:
+                    if payload != tgt:
+                        bad(m, "full-entry-differs-from-object", order, via, w, {"object": sha})
+                    continue
+                if bsha not in by_sha or dlen != len(payload):
+                    bad(m, "roundtrip", order, via, w, {"object": sha, "base": bsha, "why": "unknown base / recorded length differs"})
+                    continue
+                triples.setdefault((m, by_sha[bsha], tgt, payload), (order, via, w))
+    traces, keys = [], list(triples)
+    for n, (m, b, t, d) in enumerate(keys, 1):
+        full = len(b) + len(t) + len(d) <= FULL_LIMIT
+        traces.append({"tid": n, "kind": "rt", "blen": len(b), "delta": list(d), "full": full,
+                       "base": list(b) if full else [], "target": list(t) if full else [], "obs": []})
+    verdicts = tlc_traces(ctx, traces, "deltify")
+    for n, key in enumerate(keys, 1):
+        m, b, t, d = key
+        order, via, w = triples[key]
+        _, _, st, why, dst, chas, prod, rt, allowed, eq, segs, csegs = verdicts[n]
+        if not traces[n - 1]["full"]:
+            rt = st == "ok" and D.materialise(b, d, segs) == t
+        ctx.validated()
+        ctx.nontrivial(("deltify", m, D.sha1(b), D.sha1(t), D.sha1(d)))
+        if not rt:
+            bad(m, "roundtrip", order, via, w, {"object": D.git_blob_sha(t).hex(), "base": D.git_blob_sha(b).hex(),
+                                                  "delta": d.hex() if len(d) < 2000 else D.sha1(d), "ref": [st, why]})
+    # C git reads the packs the deltifying writer produced
+    ngit = 0
+    if git_available():
+        d0 = ctx.tmpdir("wgit")
+        env = dict(os.environ, GIT_CONFIG_NOSYSTEM="1", HOME=d0, GIT_CONFIG_GLOBAL="/dev/null")
+        for m in MODES:
+            for cid, (order, via, w) in meta.items():
+                o = obs[m][cid]
+                if o["k"] != "pack":
+                    continue
+                p = os.path.join(d0, "w.pack")
+                with open(p, "wb") as f:
+                    f.write(bytes.fromhex(o["pack"]))
+                r = subprocess.run(["git", "index-pack", p], capture_output=True, env=env)
+                ngit += 1
+                got = set()
+                if r.returncode == 0:
+                    with open(p[:-5] + ".idx", "rb") as f:
+                        got = {l.split()[1] for l in subprocess.run(["git", "show-index"], stdin=f, capture_output=True, env=env).stdout.decode().splitlines()}
+                if r.returncode != 0 or got != {D.git_blob_sha(b).hex() for b in order}:
+                    bad(m, "roundtrip", order, via, w, {"decoder": "C git index-pack", "git": r.stderr.decode("utf-8", "replace")[-200:]})
+        shutil.rmtree(d0, ignore_errors=True)
+    ctx.cov["pack_writer_deltify"] = {"families": len(fams), "cases": len(cases), "distinct_recorded_deltas": len(keys),
+                                      "packs_read_by_git": ngit}
+    if keys:
+        m, b, t, d = keys[0]
+        ctx.sample({"phase": "deltify", "impl": m, "base": b.hex()[:80], "object": t.hex()[:80], "recorded_delta": d.hex()[:80]}, limit=6)
+
+
 # =========================================================================== phase E: encoder primitives
 def phase_prims(ctx, fnd):
     offs = [0, 1, 0x7F, 0xFF, 0x100, 0x101, 0xFF00, 0xFFFF, 0x10000, 0x10001, 0xFF0000, 0xFFFFFF, 0x1000000,
@@ -1111,6 +1252,8 @@ def run(ctx):
     ctx.log("mutations done")
     phase_pack(ctx, fnd, deltas, states)
     ctx.log("pack path done")
+    phase_deltify(ctx, fnd)
+    ctx.log("pack writer (deltify) done")
     phase_prims(ctx, fnd)
     fnd.flush()
     ctx.cov["rule"] = (
@@ -1222,6 +1365,36 @@ def replay(ctx, path):
             good = False
         if not good:
             fnd.add(obj.get("signature", "pack"), f"{mode}: {clause_of(o, declared)} through a pack file", {"kind": "pack"}, 0)
+    elif kind == "deltify":
+        case = {"id": "r", "blobs": obj["blobs"], "window": obj.get("window"), "via": obj["via"]}
+        o = run_case_jobs(ctx, "deltify", [case], 1)[obj["mode"]]["r"]
+        order = [D.blob(r) for r in obj["blobs"]]
+        by_sha = {D.git_blob_sha(b).hex(): b for b in order}
+        print(f"observed {obj['mode']} ({obj['via']}): {o['k']}")
+        entries = o.get("entries")
+        if o["k"] == "pack":
+            pack = bytes.fromhex(o["pack"])
+            at = {off: sha for sha, off in o["offsets"].items()}
+            entries, off = [], 12
+            for _ in range(int.from_bytes(pack[8:12], "big")):
+                start = off
+                t, size, base, payload, off = D.read_pack_entry(pack, off)
+                entries.append([at.get(start), None if base is None else (at.get(base[1]) if base[0] == "ofs" else base[1].hex()), payload.hex(), len(payload)])
+        traces, info = [], []
+        for sha, bsha, payload, dlen in entries or []:
+            print(f"  object {sha} base {bsha} payload {dlen} bytes")
+            if bsha and bsha in by_sha and sha in by_sha:
+                traces.append({"tid": len(traces) + 1, "kind": "rt", "blen": len(by_sha[bsha]), "delta": list(bytes.fromhex(payload)),
+                               "full": False, "base": [], "target": [], "obs": []})
+                info.append((sha, bsha, bytes.fromhex(payload)))
+        v = tlc_traces(ctx, traces, "replay")
+        for n, (sha, bsha, d) in enumerate(info, 1):
+            ok = v[n][2] == "ok" and D.materialise(by_sha[bsha], d, v[n][10]) == by_sha[sha]
+            print(f"  reference decoder: apply(recorded delta, {bsha[:8]}) == {sha[:8]}: {ok} ({v[n][2]}/{v[n][3]})")
+            if not ok:
+                fnd.add(obj.get("signature", "deltify"), "recorded (base, delta) does not rebuild the object", {"kind": "deltify"}, 0)
+        if not entries:
+            fnd.add(obj.get("signature", "deltify"), f"writer failed: {o}", {"kind": "deltify"}, 0)
     elif kind == "prim":
         j = Job(ctx, "py", "prims", ops=[obj["op"]] if "op" in obj else [], sizes=[obj["size"]] if "size" in obj else [])
         res = j.run()
